@@ -564,6 +564,9 @@ def run(ctx):
     rng = sse.seeded_rng(ctx.seed, "c17mg")
     ab = [3, 10] if ctx.seed == 0 else sorted(rng.sample(range(-50, 51), 2))
     mg_nds = [-9999, 255, next(v for v in range(ab[0] + 1, 300) if v not in ab)]
+    # markers that a partial sum of valid cells can hit (a + b, 2a, 2a + b): the marker is a value like any other for
+    # the arithmetic and must not act as a state flag of the accumulation
+    mg_nds += [v for v in (ab[0] + ab[1], 2 * ab[0], 2 * ab[0] + ab[1], 2 * ab[1]) if v not in ab and v not in mg_nds]
     maxk = 4 if ctx.thorough() else 3
     mtasks = [(n, ab, mg_nds, ["float32", "int16", "int32", "int64"], maxk) for n in range(1, 7)]
     ctx.pmap(_mean_grp_task, mtasks[::-1])
